@@ -291,6 +291,8 @@ def rule_d(model, rep):
     if nn < 4:
         rep.undecided(R, "<instance-count>", f"only {nn} numeric option sanitisers found, expected at least 4")
     # coercers
+    from . import shared as _shared3
+    _shared3.rule_no_bool_coercer(model, rep, R)
     co = model.fold(model.unit(CTX), ast.Name(id="_coerce_scheme_options", ctx=ast.Load()))
     u = model.unit(CTX)
     v = u.assigns.get("_coerce_scheme_options")
@@ -364,4 +366,9 @@ def run(model, rep):
     rule_c(model, rep)
     rule_d(model, rep)
     rule_case(model, rep)
+    # update() / copy(key=...) hand the old configuration and the new keywords to one option store: the slot a key names (bare or `all__`
+    # spelling) must end up holding the last value given (rule shared with C05.f)
+    from . import c05 as _c05
+    from .shared import Renamed as _Ren
+    _c05.rule_f(model, _Ren(rep, {"C05.f": "C10.f-option-slot-last-wins"}, "C10.x-"))
     rule_lazy(model, rep)
